@@ -162,6 +162,7 @@ pub fn run() {
     let mut caps: Vec<Cap> = Vec::new();
     let templated = flip(2, 3);
     let mem_bars: Vec<usize> = (0..6).filter(|i| f.mem_bar(*i).is_some_and(|(a, s)| a != 0 && s >= 0x2000)).collect();
+    let mut big_notify = false;
     for k in 0..n {
         let id = if flip(1, 6) { [0x01u8, 0x05, 0x10, 0x11][choose(4) as usize] } else { 0x09 };
         let cfg_type = if templated && k < 4 { (k + 1) as u8 } else { [1u8, 2, 3, 4, 5, 0, 6, 1, 2, 3, 4][choose(11) as usize] };
@@ -184,7 +185,13 @@ pub fn run() {
             // disjoint slots of 0x400 bytes; the device-configuration window also gets lengths
             // that are not a whole number of words
             let len = if cfg_type == 4 { [64u32, 4, 5, 6, 7, 9, 13, 255][choose(8) as usize] } else { need.max(4) };
-            ((k as u32 % 8) * 0x400, len)
+            if cfg_type == 2 && bsize >= 0x10_0000 && flip(1, 3) {
+                // a page (or more) of notification area per queue: offsets beyond 64 Ki u16 units
+                big_notify = true;
+                (0x8_0000, 0x8_0000)
+            } else {
+                ((k as u32 % 8) * 0x400, len)
+            }
         } else {
             let length = match choose(8) {
                 0 => need,
@@ -198,7 +205,10 @@ pub fn run() {
             };
             (draw_u32_near(bsize, length), length)
         };
-        let extra = [4u32, 0, 2, 8, 1, 3, 0x1000, 0x8000_0000, 0xffff_fffe][choose(if templated { 4 } else { 9 }) as usize];
+        let mut extra = [4u32, 0, 2, 8, 1, 3, 0x1000, 0x8000_0000, 0xffff_fffe][choose(if templated { 4 } else { 9 }) as usize];
+        if big_notify && cfg_type == 2 && length == 0x8_0000 {
+            extra = [0x1000u32, 0x2000, 0x4000][choose(3) as usize];
+        }
         caps.push(Cap { id, cfg_type, cap_len, bar, offset, length, extra });
     }
     // order: any
@@ -418,11 +428,15 @@ fn ops(mut t: PciTransport, mult: u32, notify_len: u32, nq: usize, cfg_window_ex
                 // notifying is only meaningful if the queue's notify address lies in the window
                 let off = with(|w| w.bus.pci.as_ref().unwrap().funcs[&VIRTIO_DF].virtio.as_ref().unwrap().queue_notify_off[q as usize]);
                 if (off as u64 * mult as u64) + 2 <= notify_len as u64 {
-                    let before = with(|w| w.tr.notifies);
-                    t.notify(q);
-                    oplog(|| format!("notify({q}) at notify offset {off} x multiplier {mult}"));
-                    if with(|w| w.tr.notifies) != before + 1 {
-                        violation("pci-value", "notify", "no notification reached the device".into());
+                    // the same queue is often notified several times in a row
+                    let times = 1 + choose(3);
+                    for _ in 0..times {
+                        let before = with(|w| w.tr.notifies);
+                        t.notify(q);
+                        oplog(|| format!("notify({q}) at notify offset {off} x multiplier {mult}"));
+                        if with(|w| w.tr.notifies) != before + 1 && !violated() {
+                            violation("pci-value", "notify", "no notification reached the device".into());
+                        }
                     }
                 }
             }
@@ -490,7 +504,10 @@ fn ops(mut t: PciTransport, mult: u32, notify_len: u32, nq: usize, cfg_window_ex
         }
     }
     // drop: reset and wait for the (possibly late) completion
-    with(|w| w.tr.status = 3);
+    // whatever the status is at that moment, including a failed device that asked for a reset
+    let st = [3u32, 0x0f, 0x8f, 0xcf, 0x4f, 0xff, 0x80, 0][choose(8) as usize];
+    with(|w| w.tr.status = st);
+    oplog(|| format!("drop with device status {st:#x}"));
     drop(t);
     let (status, polls, pending) = with(|w| {
         let v = w.bus.pci.as_ref().unwrap().funcs[&VIRTIO_DF].virtio.as_ref().unwrap();
